@@ -72,8 +72,12 @@ static std::string objects_of(const OpResult &solo_op) {
     for (auto &n : names) s += (s.empty() ? "" : "+") + n;
     return s.empty() ? "?" : s;
 }
-static std::string interference_key(const Plan &plan, const Solo &solo, const Mismatch &m) {
+static const char *SETTINGS_KEY = "interference:process-settings";
+static std::string interference_key(const Plan &plan, const Solo &solo, const Mismatch &m, const PassResult *conc = nullptr) {
     const Op &op = plan.tasks[m.task].ops[m.op];
+    // the call's own outputs agree and only the process-wide settings it returns into differ (umask, locale,
+    // environment, rounding mode, cwd): some call changed one of them while this one was in flight
+    if (conc && conc->res[m.task][m.op].done && conc->res[m.task][m.op].digest_core == solo.res[m.task][m.op].digest_core) return SETTINGS_KEY;
     // static objects touched (in the solo passes) by any call of the victim's function in this plan
     OpResult all;
     for (size_t t = 0; t < plan.tasks.size(); t++)
@@ -129,12 +133,12 @@ static bool still_fails(const Plan &plan, const Schedule &sched, const std::stri
     // any op of that function with that key
     for (size_t t = 0; t < plan.tasks.size(); t++)
         for (size_t o = 0; o < plan.tasks[t].ops.size(); o++) {
-            if (plan.tasks[t].ops[o].fn != fn) continue;
+            if (fn >= 0 && plan.tasks[t].ops[o].fn != fn) continue;
             if (pr.res[t][o].digest == solo.res[t][o].digest) continue;
             Mismatch m;
             m.task = (int)t;
             m.op = (int)o;
-            if (interference_key(plan, solo, m) != key) continue;
+            if (interference_key(plan, solo, m, &pr) != key) continue;
             // null-preemption control: same switches, nobody else calls the library
             PassResult pn;
             ReplayStrategy st2(sched, (int)plan.tasks.size());
@@ -432,7 +436,7 @@ int c12_batch(const Args &a) {
                 st.faults_alloc += r.nfailed;
                 st.faults_wr += r.wr_faults;
                 st.faults_rd += r.rd_faults;
-                for (int lb = 0; lb < 8; lb++) {
+                for (int lb = 0; g_libc_static_names[lb]; lb++) {
                     if (!(r.libc_static & (1u << lb))) continue;
                     std::string key = std::string("libc-static:") + g_fn[op.fn].name + ":" + g_libc_static_names[lb];
                     uint64_t &cnt = st.viol_count[key];
@@ -446,8 +450,9 @@ int c12_batch(const Args &a) {
                     std::string path = write_replay("C12", "libc-static", key, a.seed, i, p1, none, std::string("function ") + g_fn[op.fn].name + "\n");
                     st.viol_replay[key] = path;
                     emit_violation(st, "libc-static", key, path, i,
-                                   std::string(g_fn[op.fn].name) + " goes through libc's " + g_libc_static_names[lb] +
-                                       ", whose result / continuation state lives in static storage shared by all threads");
+                                   std::string(g_fn[op.fn].name) + (lb >= 7 ? " changes the process-wide setting behind " : " goes through libc's ") + g_libc_static_names[lb] +
+                                       (lb >= 7 ? " (visible to every thread for as long as the change lasts, even if it is put back)"
+                                                : ", whose result / continuation state lives in static storage shared by all threads"));
                 }
                 if (r.footprint.empty()) continue;
                 st.footprint_ops++;
@@ -537,8 +542,8 @@ int c12_batch(const Args &a) {
             }
             if (!mis) continue;
             st.mismatches++;
-            std::string key = interference_key(plan, solo, m);
-            int fn = plan.tasks[m.task].ops[m.op].fn;
+            std::string key = interference_key(plan, solo, m, &pr);
+            int fn = key == SETTINGS_KEY ? -1 : plan.tasks[m.task].ops[m.op].fn;
             uint64_t &cnt = st.viol_count[key];
             if (cnt++ >= (uint64_t)per_key_cap) continue;
             Cand c;
@@ -565,15 +570,19 @@ int c12_batch(const Args &a) {
                 cnt--;
                 continue;
             }
-            std::string extra = "function " + std::string(g_fn[fn].name) + "\nvictim " + std::to_string(mm.task) + " " + std::to_string(mm.op) +
+            std::string extra = "function " + std::string(fn >= 0 ? g_fn[fn].name : "*") + "\nvictim " + std::to_string(mm.task) + " " + std::to_string(mm.op) +
                                 "\nminimise_tries " + std::to_string(tries) + "\n";
             std::string path = write_replay("C12", "interference", key, a.seed, i, c.plan, c.sched, extra);
             st.viol_replay[key] = path;
             size_t nops = 0;
             for (auto &tp : c.plan.tasks) nops += tp.ops.size();
             char detail[256];
-            snprintf(detail, sizeof detail, "%s gives a different result when another thread's call runs inside it (%zu tasks, %zu ops, %zu switches after minimisation)",
-                     g_fn[fn].name, c.plan.tasks.size(), nops, c.sched.sw.size());
+            if (fn >= 0)
+                snprintf(detail, sizeof detail, "%s gives a different result when another thread's call runs inside it (%zu tasks, %zu ops, %zu switches after minimisation)",
+                         g_fn[fn].name, c.plan.tasks.size(), nops, c.sched.sw.size());
+            else
+                snprintf(detail, sizeof detail, "a call returns with different process-wide settings (umask / locale / environment / rounding mode / cwd) than when run alone: another thread's library call changed them in between (%zu tasks, %zu ops, %zu switches after minimisation)",
+                         c.plan.tasks.size(), nops, c.sched.sw.size());
             emit_violation(st, "interference", key, path, i, detail);
             g_cur_plan = &plan;
         }
@@ -669,7 +678,7 @@ int c12_replay(const std::string &path) {
         run_solo(plan, s);
         for (size_t t = 0; t < s.res.size(); t++)
             for (size_t o = 0; o < s.res[t].size(); o++)
-                for (int lb = 0; lb < 8; lb++)
+                for (int lb = 0; g_libc_static_names[lb]; lb++)
                     if ((s.res[t][o].libc_static & (1u << lb)) &&
                         std::string("libc-static:") + g_fn[plan.tasks[t].ops[o].fn].name + ":" + g_libc_static_names[lb] == key) {
                         printf("REPRODUCED property=C12 class=libc-static key=%s\n", key.c_str());
@@ -679,7 +688,7 @@ int c12_replay(const std::string &path) {
         return 0;
     }
     if (cls == "interference") {
-        int fn = fn_by_name(meta["function"].c_str());
+        int fn = meta["function"] == "*" ? -1 : fn_by_name(meta["function"].c_str());
         Mismatch mm;
         uint64_t h1 = 0, h2 = 0;
         bool a1 = still_fails(plan, sched, key, fn, &mm, &h1);
